@@ -192,6 +192,20 @@ func scriptCmd(args []string) error {
 				tr.emit(scriptEvent("gen-mix-trunc", s[:rng.Intn(len(s))]))
 			}
 		}
+		// pushes on the 2-byte / 4-byte length boundary as scripts (PUSHDATA2 max, PUSHDATA4 min),
+		// and PUSHDATA4 forms of short data
+		for _, l := range []int{65535, 65536, 65537} {
+			enc, _ := bscript.EncodeParts([][]byte{randBytes(rng, l)})
+			tr.emit(scriptEvent("gen-big", enc))
+			tr.emit(scriptEvent("gen-big-trunc", enc[:len(enc)-1]))
+			d := randBytes(rng, l)
+			tr.emit(scriptEvent("gen-big", append(append([]byte{0x51, 0x4e, byte(l), byte(l >> 8), byte(l >> 16), 0}, d...), 0x87)))
+		}
+		for _, l := range []int{0, 1, 75, 76, 255, 256} {
+			d := randBytes(rng, l)
+			tr.emit(scriptEvent("gen-pd4", append([]byte{0x4e, byte(l), byte(l >> 8), 0, 0}, d...)))
+			tr.emit(scriptEvent("gen-pd2", append([]byte{0x4d, byte(l), byte(l >> 8)}, d...)))
+		}
 		// every single opcode, alone and next to a multi-byte push (ASM names of all 256 byte values)
 		for op := 0; op < 256; op++ {
 			tr.emit(scriptEvent("allops", []byte{byte(op)}))
